@@ -331,3 +331,80 @@ func FuzzVerifC07Decode(f *testing.F) {
 		}
 	})
 }
+
+// TestVerifC07Concurrent: key generation is a pure function of (key, tweak) also
+// when many goroutines generate keys at once (connections do so concurrently).
+func TestVerifC07Concurrent(t *testing.T) {
+	vf07Setup(t)
+	c := ev.For("C07")
+	c.Rule("concurrent: 256 (key, tweak) pairs are encoded sequentially first; then G goroutines (quick 16, thorough 32 and under -race) each perform thousands of ScalarBaseMult calls over those pairs at once; oracle: every concurrent result (ok, public key, representative) equals the sequential one and the representative decodes to the public key; non-trivial = a successful encoding under concurrency")
+	type res struct {
+		ok        bool
+		pub, repr [32]byte
+	}
+	n := 256
+	keys := make([][32]byte, n)
+	tweaks := make([]byte, n)
+	want := make([]res, n)
+	for i := range keys {
+		copy(keys[i][:], detrand.Bytes(0xc07c0000+uint64(i), 32))
+		tweaks[i] = byte(i * 37)
+		want[i].ok = ScalarBaseMult(&want[i].pub, &want[i].repr, &keys[i], tweaks[i])
+	}
+	g := 16
+	per := 3000
+	if ev.Thorough() {
+		g, per = 32, 6000
+	}
+	var wg sync.WaitGroup
+	errs := make(chan string, g)
+	var okCount int64
+	var mu sync.Mutex
+	for w := 0; w < g; w++ {
+		wg.Add(1)
+		go func(w int) {
+			defer wg.Done()
+			local := int64(0)
+			for j := 0; j < per; j++ {
+				i := (w*7919 + j*31) % n
+				var r res
+				k := keys[i]
+				r.ok = ScalarBaseMult(&r.pub, &r.repr, &k, tweaks[i])
+				if r != want[i] {
+					errs <- fmt.Sprintf("VIOL[c07-not-a-function-under-concurrency]: ScalarBaseMult(%x, tweak %d) called concurrently returned (ok=%v, pub %x, repr %x); the same call made alone returns (ok=%v, pub %x, repr %x)", keys[i], tweaks[i], r.ok, r.pub, r.repr, want[i].ok, want[i].pub, want[i].repr)
+					return
+				}
+				if r.ok {
+					var dec [32]byte
+					RepresentativeToPublicKey(&dec, &r.repr)
+					if dec != r.pub {
+						errs <- fmt.Sprintf("VIOL[c07-roundtrip]: concurrent: representative %x decodes to %x, public key %x", r.repr, dec, r.pub)
+						return
+					}
+					local++
+				}
+			}
+			mu.Lock()
+			okCount += local
+			mu.Unlock()
+		}(w)
+	}
+	wg.Wait()
+	select {
+	case m := <-errs:
+		t.Fatalf("%s", m)
+	default:
+	}
+	total := int64(g * per)
+	c.Bulk(total, 0)
+	c.Class("concurrent-calls", total)
+	c.Class("concurrent-successful-encodings", okCount)
+	// distinct non-trivial cases are the distinct successful (key, tweak) pairs exercised
+	for i := range keys {
+		if want[i].ok {
+			c.Case(ev.Hash("conc", keys[i][:], tweaks[i]), true, []string{"concurrent-pair"}, func() any {
+				return map[string]any{"unit": "concurrent", "private_key": ev.Hex(keys[i][:]), "tweak": tweaks[i], "goroutines": g}
+			})
+		}
+	}
+}
